@@ -88,6 +88,19 @@ fn emit_body_matrix(out: &mut Out, bname: &str, backend: Option<u8>, a: &[u8], b
     true
 }
 
+/// one `bdist` event per available back end, and one through the public (dispatched) path
+fn emit_bdist_all(out: &mut Out, a: &[u8], b: &[u8]) {
+    let o = public_dist(a, b);
+    out.emit(Ev::new("bdist").str("backend", "public").bytes("A", a).bytes("B", b)
+        .num("d", o.v.map(|x| x as i64).unwrap_or(-1)).meas(o.a, &o.p));
+    for (id, name) in BACKENDS {
+        if let Some(o) = backend_dist(id, a, b) {
+            out.emit(Ev::new("bdist").str("backend", name).bytes("A", a).bytes("B", b)
+                .num("d", o.v.map(|x| x as i64).unwrap_or(-1)).meas(o.a, &o.p));
+        }
+    }
+}
+
 fn backgrounds(rng: &mut Rng, n: usize, k: usize) -> (Vec<u8>, Vec<u8>) {
     match k % 5 {
         0 => (rng.bytes(n), rng.bytes(n)),
@@ -166,6 +179,43 @@ pub fn run_c02(out: &mut Out, rng: &mut Rng, thorough: bool, only: Option<&str>)
                     continue;
                 }
                 emit_body_matrix(out, name, Some(id), &a, &b, p);
+            }
+        }
+        // pairwise interaction: two byte positions changed by the same / different deltas
+        let offs: Vec<usize> = if size == 64 && !thorough { vec![1, 2, 3, 4, 7, 8, 16, 32] } else { (1..size).collect() };
+        for i in 0..size {
+            for &o in &offs {
+                let j = i + o;
+                if j >= size {
+                    continue;
+                }
+                let a = if (i + j) % 3 == 0 { vec![0u8; size] } else { rng.bytes(size) };
+                let mut b = a.clone();
+                let d = *rng.pick(&[0xffu8, 0x01, 0x55, 0xaa, 0x80, 0x03]);
+                b[i] ^= d;
+                b[j] ^= if rng.chance(2, 3) { d } else { rng.range(1, 255) as u8 };
+                emit_bdist_all(out, &a, &b);
+            }
+        }
+        // block structure: every aligned sub-block either equal, complemented or randomly different
+        let gran = if size == 12 { 4 } else { 8 };
+        let blocks = size / gran;
+        for mask in 0..(1u32 << blocks) {
+            if !thorough && blocks == 8 && mask.count_ones() != 1 && mask.count_ones() != 7 && mask % 5 != 0 && mask.count_ones() != 4 {
+                continue;
+            }
+            for style in 0..2 {
+                let a = rng.bytes(size);
+                let mut b = a.clone();
+                for k in 0..blocks {
+                    if mask >> k & 1 == 1 {
+                        for t in 0..gran {
+                            let p = k * gran + t;
+                            b[p] = if style == 0 { !a[p] } else { a[p] ^ (rng.range(1, 255) as u8) };
+                        }
+                    }
+                }
+                emit_bdist_all(out, &a, &b);
             }
         }
         // random whole bodies on every back end
